@@ -63,6 +63,8 @@ func (slf *SyncPrioritySlice[V]) Appends(priority int, vs ...V) {
 	for _, v := range vs {
 		slf.Append(v, priority)
 	}
+	slf.rw.Lock()
+	defer slf.rw.Unlock()
 	slf.sort()
 }
 
